@@ -69,7 +69,7 @@ func c18Counter(c *Ctx) {
 			ro := h.objOf(t.Results[0])
 			read := -1
 			for i, e := range t.Ev {
-				if e.Kind == EvAssign && e.LObj == ro && ro != nil && h.objOf(e.RHS) == next {
+				if e.Kind == EvAssign && e.LObj == ro && ro != nil && evRHSObj(h, e) == next {
 					read = i
 				}
 			}
@@ -261,7 +261,7 @@ func c18Store(c *Ctx) {
 					if ix, isIx := ast.Unparen(e.LHS).(*ast.IndexExpr); isIx && h.objOf(ix.X) == packets {
 						wr = e
 						// key is GetID's first result, value is the packet
-						if d, isD := t.Env.defs[h.objOf(ix.Index)]; !isD || d != t.Ev[g] || h.objOf(e.RHS) != sig.Params().At(0) {
+						if d, isD := t.Env.defs[h.objOf(ix.Index)]; !isD || d != t.Ev[g] || evRHSObj(h, e) != sig.Params().At(0) {
 							ok = false
 						}
 					}
@@ -603,6 +603,27 @@ func c19ErrClose(c *Ctx) {
 					continue
 				}
 				arg := ast.Unparen(t.Ev[d].Call.Args[0])
+				// a named local: what it was last assigned on this path (never assigned: the zero value)
+				zeroLocal := false
+				if id, isId := arg.(*ast.Ident); isId {
+					if lo, isVar := h.rawObjOf(id).(*types.Var); isVar && !lo.IsField() && lo.Parent() != lo.Pkg().Scope() {
+						var last ast.Expr
+						for _, p := range t.Ev[:d] {
+							if p.Kind == EvAssign && p.LObj == types.Object(lo) && !p.Conditional {
+								last = p.RHS
+							}
+						}
+						if last != nil {
+							arg = ast.Unparen(last)
+						} else {
+							zeroLocal = true
+						}
+					}
+				}
+				if zeroLocal && !pos {
+					okZero = true
+					continue
+				}
 				if pos {
 					// time.Now().Add(c.readTimeout)
 					if call, ok := arg.(*ast.CallExpr); ok && len(call.Args) == 1 && h.objOf(call.Args[0]) == rt {
